@@ -54,6 +54,7 @@ def run(P, rep, tier):
     part('R09.9', lambda: r_stringize(P, u, rep))
     part('R09.11', lambda: r_white_space(P, rep))
     part('R09.17', lambda: r_pp_number(P, rep))
+    part('R09.18', lambda: r_result_white_space(P, u, rep))
     if r is not None:
         part('R09.8', lambda: r_builtins(P, u, rep, r[0], r[1]))
         part('R09.10', lambda: r_lookup(P, u, rep))
@@ -375,6 +376,28 @@ def _splice_flags(P, u, rep, it, paths):
     A.flush()
     if n == 0:
         rep.undecided('R09.15', '%s:%s:no-empty-replacement-path' % (U, fn), 'no expanding path on which the replacement may be empty was found', where=where)
+
+
+# ------------------------------------------- white space of the tokens replacement produces ---
+def r_result_white_space(P, u, rep):
+    """R09.18: # spells its operand with one space wherever a token of the operand has has_space (6.10.3.2p2, decided on
+    join_tokens by R09.9). The operand of an inner # is, in a two-level stringification, the RESULT of macro replacement: the
+    flag of every token that expand_macro/subst create, copy or splice is part of what 6.10.3.2 lets a program observe."""
+    from ..report import Report, reissue
+    from . import c19
+    rep.rule('R09.18', 'white space as # sees it (C11 6.10.3.2p2: each occurrence of white space between the tokens of the operand becomes one space; the operand may itself be the result of replacement, `#define XSTR(x) STR(x)`): every token that macro replacement produces carries in has_space the white space of the token it stands for - the first token of an expansion that of the macro NAME (not of the closing parenthesis or any other token of the invocation), the first token of a substituted argument / the stringized / the pasted token that of the parameter, # or left operand in the replacement list, the first token of a __VA_OPT__ group that of the __VA_OPT__ token; every other token is copied with the flag it was read with, in the argument lists read_macro_arg_one collects as well as in replacement lists', floor=24)
+    sub = Report('C19', rep.tier, rep.seed)
+    why = 'the text produced by # for an operand that contains this token differs from the white space the program wrote: '
+    for f in (lambda: c19.r_copy(P, sub), lambda: c19.r_expand(P, sub, True), lambda: c19.r_subst(P, sub, True), lambda: c19.r_subst_repeat(P, sub)):
+        try:
+            f()
+        except AnalysisBroken as e:
+            rep.undecided('R09.18', '%s:white-space-of-results:analysis' % U, 'analysis could not proceed: %s' % e)
+
+    def keep(o):
+        k = o['key']
+        return k.startswith('R19.2:%s:' % U) and not k.endswith('at_bol')
+    reissue(rep, 'R09.18', sub, why, keep=keep)
 
 
 def _refusal_reason(it, u, ctx, calls, D):
